@@ -1,6 +1,6 @@
 (* C34 — transcript printer: the same observable string the Rust harness prints for a case. *)
 From GixV.Base Require Import Bytes Outcome.
-From GixV.C34 Require Import Model Spec.
+From GixV.C34 Require Import Model Spec SpecSh.
 Local Open Scope N_scope.
 
 Definition hexlist (l : list bytes) : bytes :=
@@ -161,6 +161,10 @@ Definition run_spec (fs : list bytes) : bytes :=
     | _ => bs "-"
     end
   else if bytes_eqb op (bs "shwords") then show_words (sh_words (nth_field 1 fs))
+  else if bytes_eqb op (bs "shc") then
+    (* shc script nargs a1 .. an *)
+    let n := N.to_nat (field_N 2 fs) in
+    show_words (sh_c_words (firstn n (skipn 3 fs)) (nth_field 1 fs))
   else bs "-".
 
 Definition run (fs : list bytes) : bytes :=
